@@ -37,6 +37,16 @@ def check(ctx, cfg):
     r3(ctx, cfg)
     r4(ctx, cfg)
     r5(ctx, cfg)
+    r6(ctx, cfg)
+
+
+def r6(ctx, cfg):
+    """"builders keep every configured component regardless of call order" for the third builder of the crate, the wasm keeper's:
+    `with_address_generator` and `with_checksum_generator` each return the keeper they were given with exactly their own field
+    replaced - a step that rebuilds the keeper from `Self::new()` silently drops the other generator and every code stored so far,
+    and does so only in one of the two call orders (the C11.R9 obligations under C20's id)"""
+    from rules import C11
+    C11.r9(ctx, cfg, R="C20.R6")
 
 
 def _fields_of(F, adt):
